@@ -4,6 +4,7 @@ import (
 	"bytes"
 	"sync"
 	"sync/atomic"
+	"time"
 
 	"github.com/snower/slock/protocol"
 )
@@ -738,6 +739,7 @@ func (self *LockManager) UpdateLockedLock(lock *Lock, command *protocol.LockComm
 			}
 		} else {
 			lock.expriedTime = lock.startTime + (int64(command.Expried)+999)/1000 + 1
+			lock.expriedMs = time.Now().UnixNano()/1e6 + int64(command.Expried)
 		}
 
 		if command.TimeoutFlag&protocol.TIMEOUT_FLAG_UPDATE_NO_RESET_TIMEOUT_CHECKED_COUNT == 0 {
@@ -918,6 +920,7 @@ func (self *LockManager) GetOrNewLock(serverProtocol ServerProtocol, command *pr
 	}
 	lock.timeoutCheckedCount = 1
 	lock.longWaitIndex = 0
+	lock.expriedMs = 0
 	atomic.AddUint32(&self.refCount, 1)
 	return lock
 }
@@ -1462,11 +1465,15 @@ type Lock struct {
 	expried             bool
 	aofTime             uint8
 	isAof               bool
+	// absolute deadline (Unix milliseconds) of a hold whose expiry is given in milliseconds, set when the
+	// hold is filed in a millisecond queue and when its terms are changed; the entry of the old terms stays
+	// in its slot and is re-filed under this deadline when it fires too early
+	expriedMs int64
 }
 
 func NewLock(manager *LockManager, protocol ServerProtocol, command *protocol.LockCommand) *Lock {
 	return &Lock{manager, command, protocol.GetProxy(), nil, 0, 0, 0,
-		0, 1, 1, 0, 0, 0xff, true, true, 0, false}
+		0, 1, 1, 0, 0, 0xff, true, true, 0, false, 0}
 }
 
 func (self *Lock) GetDB() *LockDB {
